@@ -210,6 +210,17 @@ void string_laws(const Json& laws) {
         // variadic join is left-associative
         if (Path::join(d, n, n) != Path::join(Path::join(d, n), n)) sim::violation("string-law", "variadic join is not join(join(a,b),c)");
         g_extra["string_law_cases"]++;
+        // totality / memory safety only (ASan is the oracle): the string functions are called on every spelling the laws do
+        // not pin down — trailing separators, bare names, the empty string, a lone separator
+        for (const std::string& x : {d, d + "/", n, n + "/", std::string(), std::string("/"), std::string("//"), j + "/", "/" + n}) {
+            Path px(x);
+            (void)px.getPathName();
+            (void)px.getParentDirectory().toString();
+            (void)px.isAbsolute();
+            (void)Path::join(x, n);
+            (void)Path::join(std::string(), x);
+        }
+        (void)Path::getSystemPath();
     }
 }
 
